@@ -197,7 +197,7 @@ def generate(seed, tier):
         tn, tk = next_type()
         key = 'C03|inner|%s|%s' % (tk, 'x'.join(map(str, shp)))
         cases[key] = Case(key, 'VP_CASE("@KEY@", vp::c03::inner_case<%s>);' % tens(tn, shp))
-    for sa, sb in [((3,), (5,)), ((2, 3), (4,)), ((4,), (2, 3)), ((2, 3), (3, 2)), ((2, 2), (2, 2)), ((3, 3), (3, 3)), ((2, 3, 2), (3,)), ((9,), (17,)), ((4, 4), (4, 4)), ((3,), (32,)), ((2,), (33,)), ((2, 2), (64,)), ((3,), (5, 13)), ((2,), (67,)), ((1,), (131,)), ((3,), (8, 16))]:
+    for sa, sb in [((3,), (5,)), ((2, 3), (4,)), ((4,), (2, 3)), ((2, 3), (3, 2)), ((2, 2), (2, 2)), ((3, 3), (3, 3)), ((2, 3, 2), (3,)), ((9,), (17,)), ((4, 4), (4, 4)), ((3,), (32,)), ((2,), (33,)), ((2, 2), (64,)), ((3,), (5, 13)), ((2,), (67,)), ((2,), (131,)), ((3,), (8, 16))]:
         tn, tk = next_type()
         key = 'C03|outer|%s|%s,%s' % (tk, 'x'.join(map(str, sa)), 'x'.join(map(str, sb)))
         cases[key] = Case(key, 'VP_CASE("@KEY@", vp::c03::outer_case<%s,%s>);' % (tens(tn, sa), tens(tn, sb)))
